@@ -530,6 +530,7 @@ def _watchdog(seconds):
 
 def run_s_history(h, maxviol=1):
     """stops at the first violation: afterwards specification and container have diverged"""
+    oc.common.beat("oracle: container history", {"history": h})
     run_ = _Run(h)
     step = -1
     try:
